@@ -15,7 +15,7 @@ RULE = (
     "function (FVA - default, loopless on networks without possible internal cycles, fraction_of_optimum, pfba_factor - , find_blocked_reactions, find_essential_genes/reactions, single/double gene/reaction deletion) x "
     "schedule: processes in 2..min(6, items), a permutation of the requested items, per-item delays 0-25 ms drawn from "
     "the case, chunk size 1..4 (vfw/sched.py patches the task function and the pool from the parent; forked workers "
-    "inherit it). OptGP sampling with 2-3 processes. Oracle (metamorphic + reference): results under the schedule are "
+    "inherit it). OptGP sampling with 2-3 processes through sample() and through one sampler object asked several times for counts that are no multiple of the process count (homogeneous regions and regions with a forced flux). Oracle (metamorphic + reference): results under the schedule are "
     "equal item by item (rel 1e-6) to the processes=1 / unpermuted / undelayed run, to asking for each item alone and "
     "to the exact oracle (exact FVA ranges; exact LP of the knocked-out spec); row/label sets identical; no child "
     "process outlives the call. Sampling: every sample feasible by an independent numpy check; two runs with the "
@@ -132,6 +132,54 @@ def check_case(case, ctx):
         V = a[rids].to_numpy()
         if V.shape[0] and (np.abs(S @ V.T).max() > 1e-6 * max(1.0, np.abs(ub).max()) or (V < lb - 1e-6).any() or (V > ub + 1e-6).any()):
             _v("optgp:infeasible-sample", "a parallel optgp sample violates steady state or bounds")
+        if multiprocessing.active_children():
+            _v("children-left", f"child processes outlive the call: {multiprocessing.active_children()}")
+        # the sampler object: consecutive sample()/batch() calls with counts that are no multiple of the process count, on
+        # the model as it is or (odd seeds) with one reaction forced to carry flux, i.e. a region without the origin
+        # (since seeded change C14-6: state carried from one parallel call to the next)
+        import copy as _copy
+
+        from cobra.sampling import OptGPSampler
+
+        spec2, model2 = spec, model
+        if case["seed"] % 2:
+            _, ranges, _ = oracles.fva(spec, rids, objective_row=False)
+            cand = [rid for rid in rids if ranges[rid][1] is not None and ranges[rid][1] > 0]
+            if cand:
+                rid = cand[case["seed"] % len(cand)]
+                spec2 = _copy.deepcopy(spec)
+                rx = next(r for r in spec2["rxns"] if r["id"] == rid)
+                rx["lb"] = max(rx["lb"], float(ranges[rid][1]) / 2)
+                model2 = build.build_model(spec2, "bulk")
+                classes.append("optgp-forced-flux")
+        n1, n2 = 1 + case["seed"] % 5, 1 + (case["seed"] // 5) % 7
+        S2 = np.array([[r["mets"].get(m["id"], 0) for r in spec2["rxns"]] for m in spec2["mets"]], dtype=float)
+        lb2 = np.array([r["lb"] for r in spec2["rxns"]], dtype=float)
+        ub2 = np.array([r["ub"] for r in spec2["rxns"]], dtype=float)
+
+        def sequence():
+            smp = OptGPSampler(model2, processes=p, thinning=3, seed=case["seed"])
+            return [smp.sample(n1), smp.sample(n2), *smp.batch(n1, 2)]
+
+        try:
+            f1 = sequence()
+        except ValueError:
+            return {"nontrivial": len(a) >= 6, "classes": classes + ["sampler-object-refused"]}
+        except Exception as e:  # noqa: BLE001
+            _v("optgp:sequence-failed", f"OptGPSampler(processes={p}, seed={case['seed']}): sample({n1}), sample({n2}), batch({n1}, 2) raised "
+                                        f"{type(e).__name__}: {str(e)[:150]} on a feasible model with finite bounds")
+        f2 = sequence()
+        for k, (fr, n) in enumerate(zip(f1, [n1, n2, n1, n1])):
+            want = int(math.ceil(n / p) * p)
+            if fr.shape[0] != want:
+                _v("optgp:rows", f"call #{k} asked for {n} samples with {p} processes: {fr.shape[0]} rows, expected {want}")
+            V = fr[rids].to_numpy()
+            if (np.abs(S2 @ V.T).max() > 1e-6 * max(1.0, np.abs(ub2).max()) or (V < lb2 - 1e-6).any() or (V > ub2 + 1e-6).any()):
+                _v("optgp:infeasible-sample", f"call #{k} of a sampler object ({p} processes, counts {n1}, {n2}, batch {n1}x2): a sample violates "
+                                              f"steady state or bounds")
+            if not fr.equals(f2[k]):
+                _v("optgp:not-reproducible", f"call #{k} of two identical call sequences (seed {case['seed']}, {p} processes) differs")
+        classes.append("optgp-sampler-object")
         if multiprocessing.active_children():
             _v("children-left", f"child processes outlive the call: {multiprocessing.active_children()}")
         return {"nontrivial": len(a) >= 6, "classes": classes}
